@@ -1,4 +1,4 @@
-from contracts import views_build
+from contracts import views_build, coord
 
 def build(tier):
-    return dict(targets=views_build.targets(tier), assumptions=[], trusted_base=[])
+    return dict(targets=views_build.targets(tier) + coord.targets(tier), assumptions=[], trusted_base=[])
